@@ -47,7 +47,7 @@ ASSUMPTIONS = [
 ]
 MANIFEST = {
     "technique": "Lean 4 proof (list induction + linear integer arithmetic over the _slice window, ForLoop/TableRow automata and a for/tablerow/break/continue interpreter) + differential correspondence on rendered templates, exhaustive for small collections",
-    "text": "Theorems slice_visits_spec, slice_visits_indices, length_is_visited, slice_never_raises, reversed_spec, else_iff_empty, forloop_helpers, forloop_first_last_unique, continue_offset, continue_chain, stopindex_frame, tablerow_grid, tablerow_nowrap, tablerow_structure, break_honoured, continue_honoured, for_renders_spec hold for every collection, every integer limit/offset, every cols and every loop body, with no bound; the models are tied to loop.py/for_tag.py/tablerow_tag.py/context.py by direct calls of _slice and the drops and by rendering real templates (sync and async), exhaustively for small collections.",
+    "text": "Theorems slice_visits_spec, slice_visits_indices, length_is_visited, slice_never_raises, reversed_spec, else_iff_empty, forloop_helpers, parentloop_is_enclosing, continue_offset, continue_visits_the_rest, continue_chain, stopindex_frame, tablerow_grid, tablerow_nowrap, tablerow_structure, break_honoured, continue_honoured, for_renders_spec hold for every collection, every integer limit/offset, every cols and every loop body, with no bound; the models are tied to loop.py/for_tag.py/tablerow_tag.py/context.py by direct calls of _slice and the drops and by rendering real templates (sync and async), exhaustively for small collections.",
     "note": "Trusted: Lean kernel (axioms propext/Classical.choice/Quot.sound only), the hand models, the harness translation of cases to Liquid source, CPython islice/int/range semantics (sampled). Four defects of the original tree were repaired on fix-C13 (limit:0, negative limit, tablerow cols:0 row number, break before row separator); the model mirrors the repaired code.",
 }
 
